@@ -2334,7 +2334,10 @@ public:
       bool skipThen = dynamic_cast<SkipStatement*>(stmt.getThenStmt().get());
       bool skipElse = dynamic_cast<SkipStatement*>(stmt.getElseStmt().get());
       if (skipThen && skipElse) {
-        // Do nothing.
+        // Nothing to choose between, but calls in the condition still happen.
+        if (cb.containsCall(stmt.getCondition())) {
+          cb.genExpr(stmt.getCondition(), currentScope);
+        }
       } else if (skipElse) {
         // No else branch.
         auto endLabel = cb.getLabel();
